@@ -1733,6 +1733,8 @@ def concatenate(
     """
     pulses = tuple(pulses)
     if len(pulses) == 1:
+        if not hasattr(pulses[0], 'c_opers'):
+            raise TypeError('Can only concatenate PulseSequences!')
         return copy.deepcopy(pulses[0])
 
     newpulse, _, n_oper_mapping = concatenate_without_filter_function(
